@@ -109,6 +109,10 @@ RENDERINGS = {
     'eq_dq': ('{k}="', '"', 'quoted', False),
     'eq_sp_sq': ("{k} = '", "'", 'quoted', False),
     'eq_sp_dq': ('{k} = "', '"', 'quoted', False),
+    'eq_prefix': ('{p}{k}=', '', 'bare', False),
+    'eq_prefix_sp': ('{p}{k} = ', '', 'bare', False),
+    'eq_prefix_sq': ("{p}{k}='", "'", 'quoted', False),
+    'eq_prefix_dq': ('{p}{k} = "', '"', 'quoted', False),
     'json_sq': ("'{k}': '", "'", 'quoted', True),
     'json_dq': ('"{k}": "', '"', 'quoted', True),
     'json_tight': ("'{k}':'", "'", 'quoted', True),
@@ -132,7 +136,12 @@ RENDERINGS = {
 RNAMES = tuple(RENDERINGS)
 QUOTE_FREE = tuple(n for n, r in RENDERINGS.items()
                    if "'" not in r[0] and '"' not in r[0])
-PREFIXES = ('', 'node.session.auth.', 'original_', 'ipmi_', 'x.')
+# prefixes put directly in front of a key; besides neutral ones, heads of
+# *other* sanitize keys, so that prefix+key contains an overlapping second
+# key that starts earlier (new_ + password, admin + password, chap + secret,
+# admin_ + passphrase, ...)
+PREFIXES = ('', 'node.session.auth.', 'original_', 'ipmi_', 'x.', 'new_',
+            'admin', 'admin_', 'auth_', 'chap', 'secret_', 'sys_', 'db_')
 FLAGS = ('-v', '--flag', '--password', '-p')
 PADS = ('', ' ', '\n      ', '\t')
 
@@ -688,8 +697,45 @@ def nokey_case(strutils, case, sub):
 
 # --------------------------------------------------------------------------
 
+def pairs_table(col, key):
+    """Every ordered pair of renderings in one message, separated by neutral
+    text: once with the same key twice, once with two different keys."""
+    sub = 'pairs'
+    routed = still_failing()
+    other = PINNED_KEYS[(PINNED_KEYS.index(key) + 7) % len(PINNED_KEYS)]
+    n = 0
+    for r1 in RNAMES:
+        for r2 in RNAMES:
+            for k2, case2 in ((key, 'lower'), (key, 'upper'), (other, 'lower')):
+                items = []
+                for rn, kk, cc, sec in ((r1, key, 'lower', 'Sec!1x'),
+                                        (r2, k2, case2, 'oth3r#Z')):
+                    it = {'key': kk, 'case': cc, 'r': rn, 'secret': sec}
+                    if '{p}' in RENDERINGS[rn][0]:
+                        it['prefix'] = 'original_'
+                    if '{f}' in RENDERINGS[rn][0]:
+                        it['flag'] = '-v'
+                    items.append(it)
+                case = {'mask': None,
+                        'parts': ['ctx ', items[0], ' mid word ', items[1],
+                                  ' tail']}
+                hit = findings_of(case) & routed
+                if hit:
+                    for h in sorted(hit):
+                        col.known(sub, h)
+                    continue
+                check_message(case, sub)
+                n += 1
+    col.count(sub, n - 1, 'key=' + key)
+    col.distinct_extra += n - 1
+    col.case(sub, ('pairs', key), True, 'sample', case)
+    col.exhaustive.setdefault(sub, True)
+
+
 def tasks(tier, seed):
     out = [Task('probe', probe_known)]
+    for key in (PINNED_KEYS if tier == 'thorough' else PINNED_KEYS[::5]):
+        out.append(Task('pairs', pairs_table, key=key))
     if tier == 'quick':
         variants = (('lower', ''), ('alternating', '7'))
         shards, examples, nshards, nexamples = 12, 2500, 2, 2500
